@@ -1,7 +1,7 @@
 """C08: log results are partitioned into ordered streams and honour the limit."""
 from vlib import cbytes, b64e, cZ
 import egen
-from egen import EGen, B, oracles_coq, dedup, rand_caps
+from egen import EGen, B, oracles_coq, dedup, rand_caps, clist
 from props.engcommon import EngProp
 from props.c01 import themed_case
 
@@ -66,6 +66,10 @@ class P(EngProp):
             r["res"] = [("job", "x")]
             r["attrs"] = [("src", rng.choice(["a", "a", "b"]))]
         pipe = [g.st_dropkeep("drop", ["msg"], [])]
+        if rng.random() < 0.5:
+            # a template rewriting a label that comes from the resource all these records share: every record starts from the resource's own value
+            t = ("{{.job}}/app", clist(["TLabel %s" % cbytes(B("job")), "TText %s" % cbytes(B("/app"))]))
+            pipe.append(g.st_label_format([], [("job", t[0], t[1])]))
         return recs, oracles_coq(), g.selector(extra=False), pipe, "fewstreams"
 
     def quoting_case(self, rng, g):
@@ -84,7 +88,8 @@ class P(EngProp):
             v1, v2 = rng.choice(["x", "", "p q"]), rng.choice(["y", "", "1"])
             i, j = rng.sample(range(n), 2)
             recs[i]["attrs"] = [(k1, v1), (k2, v2)]
-            recs[j]["attrs"] = [(k1, v1 + '",' + k2 + '="' + v2)]
+            # ... with the value written as the quoted rendering would show it, or as an unquoted rendering would
+            recs[j]["attrs"] = [(k1, v1 + '",' + k2 + '="' + v2)] if rng.random() < 0.5 else [(k1, v1 + "," + k2 + "=" + v2)]
         pipe = [rng.choice([g.st_dropkeep("drop", ["msg"], []), g.st_dropkeep("keep", ["a", "b"], []), g.st_dropkeep("drop", ["msg", "job"], [])])]
         if rng.random() < 0.3:
             pipe.append(g.line_filter(words=["l1", "l2", "l"]))
